@@ -584,6 +584,28 @@ fn pc_history(cx: &mut Ctx, single: bool, preset: u64, capbytes: usize, files: &
     let mut contents: Vec<Vec<u8>> = vec![];
     let mut paths: Vec<String> = vec![];
     let mut fids: Vec<u32> = vec![];
+    let mut fails: Vec<String> = vec![];
+    // Refused requests: a request that names a file id the cache has not handed out (op 11: before any file is opened, so that the ids
+    // it names are the ones the files of this history are about to get; op 10: in the middle of the history, ids above every id in use).
+    // Whether such a request is answered by an error or by "nothing there" is the library's business; it must not panic, must not
+    // return bytes, and must leave the cache as it was: everything the history does afterwards is judged as in any other history (and
+    // the Coq replay does not see these requests at all, so a trace of them in the cache state is a disagreement with the model too).
+    let refused_request = |cache: &Pc, id: u32, kind: u64, arg: u64, fails: &mut Vec<String>| {
+        let what = ["read", "prefetch", "invalidate_page", "invalidate_range", "close_file", "read of three pages", "read into a buffer", "read_batch-style second read"][(kind % 8) as usize];
+        let r = guarded(|| -> Result<usize, String> { match kind % 8 {
+            0 => cache.read(id, arg, 100, 0).map(|g| g.len()),
+            1 => cache.prefetch(id, arg, 5000).map(|_| 0),
+            2 => cache.inv_page(id, (arg / PAGE_SIZE as u64) as u32).map(|_| 0),
+            3 => cache.inv_range(id, arg, 5000).map(|_| 0),
+            4 => cache.close(id).map(|_| 0),
+            5 => cache.read(id, 0, 3 * PAGE_SIZE, 0).map(|g| g.len()),
+            6 => cache.read(id, arg, 64, 5).map(|g| g.len()),
+            _ => { let _ = cache.read(id, arg, 10, 0); cache.read(id, arg, 10, 4).map(|g| g.len()) } } });
+        match r { Err(p) => fails.push(format!("{} on file id {} (never handed out) panicked: {}", what, id, p)),
+                  Ok(Ok(n)) if n > 0 => fails.push(format!("{} on file id {} (never handed out) returned {} bytes", what, id, n)),
+                  _ => {} }
+    };
+    for &(c, id, kind, arg) in ops { if c == 11 { refused_request(&cache, 1 + (id % 3) as u32, kind, arg, &mut fails); cx.sum.dist("pc_refused_before_open"); } }
     for (seed, len) in files {
         cx.fileno += 1;
         let p = format!("{}/f{}", cx.tmp, cx.fileno);
@@ -596,7 +618,6 @@ fn pc_history(cx: &mut Ctx, single: bool, preset: u64, capbytes: usize, files: &
     // per file: byte index -> values the byte held since the cache was last told about it
     let mut alts: Vec<HashMap<u64, Vec<u8>>> = files.iter().map(|_| HashMap::new()).collect();
     let mut closed: Vec<bool> = files.iter().map(|_| false).collect();
-    let mut fails: Vec<String> = vec![];
     let mut mops: Vec<String> = vec![]; // model ops, encoding of Model.pc_step_h
     let mut mobs: Vec<String> = vec![];
     let mut xops: Vec<String> = vec![]; // model ops, encoding of ModelInval.x_step_h / s_step_h
@@ -606,6 +627,17 @@ fn pc_history(cx: &mut Ctx, single: bool, preset: u64, capbytes: usize, files: &
     let size_deterministic = capbytes / PAGE_SIZE >= 32;   // nothing is evicted, so the page count does not depend on which page a tie evicts
     let unit = coq_n_list(digest(&[]));
     for &(c, fi, a, b) in ops {
+        if c == 11 { continue; }
+        if c == 10 {
+            let id = fids.iter().copied().max().unwrap_or(0).saturating_add(1 + (fi % 3) as u32);
+            let before = if let Pc::Single(sc) = &cache { guarded(|| sc.size()).ok() } else { None };
+            refused_request(&cache, id, a, b, &mut fails);
+            cx.sum.dist("pc_refused_in_history");
+            if let (Pc::Single(sc), Some(n0)) = (&cache, before) {
+                if let Ok(n1) = guarded(|| sc.size()) { if n1 > n0 { fails.push(format!("a refused request on file id {} (never handed out) left {} pages in the cache where {} were", id, n1, n0)); } }
+            }
+            continue;
+        }
         let fi = (fi as usize) % files.len().max(1);
         let fid = fids[fi];
         match c {
@@ -704,6 +736,8 @@ fn pc_history(cx: &mut Ctx, single: bool, preset: u64, capbytes: usize, files: &
 fn gen_pops(r: &mut Rng, files: &[(u64, u64)], n: usize, with_overwrite: bool, extra: u8) -> Vec<POp> {
     let ps = PAGE_SIZE as u64;
     let mut ops = vec![];
+    // one history in six starts with requests on the ids its files are about to get (nothing is open yet)
+    if r.chance(1, 6) { for _ in 0..r.range(1, 3) { ops.push((11, r.below(3), r.below(8), *r.pick(&[0u64, 1, ps - 1, ps, 2 * ps + 7]))); } }
     for _ in 0..n {
         let fi = r.below(files.len() as u64);
         let flen = files[fi as usize].1;
@@ -757,6 +791,8 @@ fn gen_pops(r: &mut Rng, files: &[(u64, u64)], n: usize, with_overwrite: bool, e
             }
             continue;
         }
+        // a request on a file id that was never handed out, between the others (one operation in twenty-five)
+        if r.chance(1, 25) { ops.push((10, r.below(3), r.below(8), *r.pick(&[0u64, 1, ps - 1, ps, flen, 3 * ps + 5]))); continue; }
         let c = r.below(100);
         let op = if c < 55 { 0 } else if c < 62 { 4 } else if c < 68 { 5 } else if c < 78 { 1 } else if c < 86 { 2 } else if c < 93 { 3 } else if with_overwrite { 6 } else { 0 };
         if op == 2 { ops.push((2, fi, r.below(npages + 1), 0)); } else { ops.push((op as u8, fi, off, len)); }
@@ -816,6 +852,19 @@ fn blob_history(cx: &mut Ctx, strategy: u64, preset: u64, capbytes: usize, share
                        mops.push(format!("(0, {}, {})", a, b)); mobs.push(coq_n_list(vec![1u128, id as u128]));
                        if shadow.contains_key(&id) { fails.push(format!("put returned id {} which is still in use", id)); }
                        shadow.insert(id, data); ids.push(id); }
+                1 | 2 if a >= 1000 => {
+                    // refused requests inside the history: an id no put ever returned.  get / size / contains answer "not there", remove is
+                    // an error, and the store is as it was (len() right below, every later get, the final read-back of all blobs); the
+                    // Coq replay does not see these calls, so a trace of them in the store or the cache is a disagreement there too
+                    let id = 0x7000_0000u32 + (a as u32 & 0xFFFF) + ids.iter().copied().max().unwrap_or(0);
+                    if shadow.contains_key(&id) { continue; }
+                    cx.sum.dist("blob_refused_unknown_id");
+                    if c == 1 {
+                        if let Ok(g) = store.get(id) { fails.push(format!("get({}) of an id that was never handed out returned {} bytes", id, g.len())); }
+                        if let Ok(Some(n)) = store.size(id) { fails.push(format!("size({}) of an id that was never handed out = {}", id, n)); }
+                        if store.contains(id) { fails.push(format!("contains({}) of an id that was never handed out", id)); }
+                    } else if store.remove(id).is_ok() { fails.push(format!("remove({}) of an id that was never handed out succeeded", id)); }
+                }
                 1 | 2 => {
                     if ids.is_empty() { continue; }
                     let id = ids[(a as usize) % ids.len()];
@@ -890,8 +939,8 @@ fn gen_bops(r: &mut Rng, n: usize, shared: bool) -> Vec<BOp> {
     for _ in 0..n {
         let c = r.below(100);
         if c < 35 { let len = *r.pick(&[0u64, 1, 7, 100, ps - 1, ps, ps + 1, 2 * ps + 5, 300]); ops.push((0, len, r.below(250))); }
-        else if c < 65 { ops.push((1, r.below(16), 0)); }
-        else if c < 75 { ops.push((2, r.below(16), 0)); }
+        else if c < 65 { ops.push((1, if r.chance(1, 12) { 1000 + r.below(5) } else { r.below(16) }, 0)); }
+        else if c < 75 { ops.push((2, if r.chance(1, 8) { 1000 + r.below(5) } else { r.below(16) }, 0)); }
         else if c < 79 { ops.push((3, 0, 0)); }
         else if c < 84 { ops.push((4, r.below(3 * ps), r.below(2 * ps))); }
         else if c < 87 { ops.push((5, 0, 0)); }
@@ -919,7 +968,10 @@ fn fsa_history(cx: &mut Ctx, max_states: usize, strategy: u64, ops: &[(u8, u64, 
         let mut ids: Vec<u32> = vec![];
         for &(op, a, b) in ops {
             match op {
-                0 => { let id = c.cache_state(a as u32 & 0xFF_FFFF, b as u32, a % 2 == 1).map_err(|e| format!("{:?}", e))?;
+                0 => { let n0 = c.stats().cached_states;
+                       let id = c.cache_state(a as u32 & 0xFF_FFFF, b as u32, a % 2 == 1).map_err(|e| format!("{:?}", e))?;
+                       // below max_states nothing is evicted: one more state is cached (an id handed out twice would overwrite one instead)
+                       if n0 < max_states && c.stats().cached_states != n0 + 1 { fails.push(format!("cache_state with {} of {} states cached returned id {} and left {} states cached", n0, max_states, id, c.stats().cached_states)); }
                        last.insert(id, (a as u32 & 0xFF_FFFF, b as u32, a % 2 == 1)); if !ids.contains(&id) { ids.push(id); } }
                 1 => { if ids.is_empty() { continue; } let id = ids[(a as usize) % ids.len()];
                        if let Some(s) = c.get_state(id) {
@@ -1100,6 +1152,19 @@ pub fn run(args: &Args) {
         ops.push((0, 0, 0, flen));
         pc_history(&mut cx, rng.chance(1, 5), rng.below(4), *rng.pick(&[16 * ps as usize, 64 * ps as usize]), &files, &ops, iow < n_ow / 3);
     }
+    // refused requests inside histories (deterministic): each kind of request on an id that was never handed out, (11) before the files are
+    // opened - on the very ids they are about to get - and (10) between the reads of a history, on both caches, small and large capacity;
+    // the history goes on after every one of them and is judged (and replayed in the models) as if they had not been made
+    for kind in 0..8u64 { for (v, &capbytes) in [2 * ps as usize, 64 * ps as usize].iter().enumerate() { for single in [false, true] {
+        let files = vec![(7 + kind, 3 * ps + 17), (90 + kind, ps + 1)];
+        let arg = [0u64, ps - 1, ps, 3 * ps + 16][(kind % 4) as usize];
+        let mut ops: Vec<POp> = vec![(11, 0, kind, arg), (11, 1, kind, arg), (11, 2, (kind + 3) % 8, 0)];
+        ops.extend_from_slice(&[(0, 0, 0, 3 * ps + 17), (0, 1, 0, ps + 1), (10, 0, kind, arg), (0, 0, ps - 5, 10), (10, 1, (kind + 1) % 8, arg), (5, 1, ps - 1, 2), (1, 0, ps, 2 * ps),
+            (10, 2, kind, 0), (4, 0, 2 * ps - 1, 2), (2, 0, 1, 0), (10, 0, 4, 0), (0, 0, 0, 3 * ps + 17), (3, 1, 0, ps + 1), (10, 1, kind, arg), (0, 1, 0, ps + 1)]);
+        if v == 1 { ops.extend_from_slice(&[(8, 1, 0, 0), (10, 0, 4, 0), (10, 0, kind, arg), (0, 0, 0, 3 * ps + 17), (0, 1, 0, 10), (8, 1, 0, 0), (0, 0, ps, ps)]); }
+        pc_history(&mut cx, single, kind % 4, capbytes, &files, &ops, true);
+        cx.sum.dist("refused_family_page_cache");
+    } } }
     // the confirmed short-last-page witnesses, always
     pc_history(&mut cx, false, 0, 2 * ps as usize, &[(3, 2 * ps + 100)], &[(0, 0, 2 * ps, 200), (0, 0, 2 * ps - 92, 300), (0, 0, 0, 3 * ps)], true);
     // extension: somebody else rewrites the file and the cache is told later (or not at all, or about another range),
@@ -1128,6 +1193,14 @@ pub fn run(args: &Args) {
         pc_history(&mut cx, i % 4 == 3, rng.below(4), 64 * ps as usize, &[(rng.below(200), flen)], &ops, i < 12);
     }
     // cached blob store
+    // refused requests inside histories (deterministic): get / size / contains / remove of ids no put ever returned, between puts, gets,
+    // removes (also the second remove of the same blob), a flush and a strategy change, on every write strategy, own and shared cache
+    for strategy in 0..3u64 { for shared in [false, true] { for &capbytes in &[ps as usize, 16 * ps as usize] {
+        let ops: Vec<BOp> = vec![(0, 100, 1), (0, ps + 1, 2), (1, 1000, 0), (2, 1001, 0), (1, 0, 0), (2, 0, 0), (2, 0, 0), (2, 1000, 0), (1, 1002, 0), (0, 7, 3), (3, 0, 0),
+            (1, 1000, 0), (7, strategy + 1, 0), (2, 1003, 0), (1, 1, 0), (1, 2, 0), (5, 0, 0), (1, 1004, 0), (6, 0, 0), (0, 2 * ps + 5, 4), (2, 1004, 0), (1, 3, 0)];
+        blob_history(&mut cx, strategy, strategy, capbytes, shared, &ops, true);
+        cx.sum.dist("refused_family_blob");
+    } } }
     let n_blob = if th { 3000 } else { 300 };
     for _ in 0..n_blob {
         let shared = rng.chance(1, 3);
